@@ -122,13 +122,22 @@ def P_dlc_client_name(ctx, t):
 
 def P_dlc_server(ctx, t):
     s = nfc.llcp.Socket(ctx.llc, nfc.llcp.DATA_LINK_CONNECTION)
-    call(ctx, t, "bind", "dlc2", lambda: s.bind(b"urn:nfc:sn:dut"), sock=s)
-    call(ctx, t, "listen", "dlc2", lambda: s.listen(1), sock=s)
-    c = call(ctx, t, "accept", "dlc2", s.accept, sock=s)
-    know(ctx, c, "dlc2c")
-    ctx.emit("Adopt", t, "dlc2c", "dlc2", "-")
-    call(ctx, t, "recv", "dlc2c", c.recv, sock=c)
-    call(ctx, t, "send", "dlc2c", lambda: c.send(b"reply"), sock=c)
+    c = None
+    try:
+        call(ctx, t, "bind", "dlc2", lambda: s.bind(b"urn:nfc:sn:dut"), sock=s)
+        call(ctx, t, "listen", "dlc2", lambda: s.listen(1), sock=s)
+        c = call(ctx, t, "accept", "dlc2", s.accept, sock=s)
+        know(ctx, c, "dlc2c")
+        ctx.emit("Adopt", t, "dlc2c", "dlc2", "-")
+        call(ctx, t, "recv", "dlc2c", c.recv, sock=c)
+        call(ctx, t, "send", "dlc2c", lambda: c.send(b"reply"), sock=c)
+    finally:
+        # what every service thread does (SnepServer._serve, HandoverServer.serve: `finally: socket.close()`)
+        if c is not None:
+            try:
+                call(ctx, t, "close", "dlc2c", c.close, sock=c)
+            except nfc.llcp.Error:
+                pass
 
 
 def P_dlc_poll_recv(ctx, t):
